@@ -21,8 +21,8 @@ structure Vio where
 structure Mon where
   accepted : List (BId × EId) := []     -- accepted dispatches, in order
   begun : List (BId × EId) := []        -- activations begun, in order
-  tripped : List EId := []              -- events whose activation hit the recursion guard (F2)
-  aborted : List EId := []              -- events whose inline activation was abandoned (F5)
+  tripped : List (BId × EId) := []      -- activations that hit the recursion guard (F2)
+  aborted : List (BId × EId) := []      -- inline activations that were abandoned (F5)
   snaps : List (EId × List Res) := []   -- results of an event when it was first complete and signalled
   entries : List (EId × BId) := []      -- accepted dispatches that are not forwards: (event, entry bus)
   fwdRejected : Bool := false
@@ -107,10 +107,11 @@ end C14
 
 /-! ### signatures of the recorded findings -/
 
-/-- F4: some event of the tree carries a non-terminal result created by a bus other than the first of its path -/
+/-- F4: some event of the tree was enqueued on several buses and is signalled although it (again) carries a
+    result that is not terminal (or an incomplete child): completion was declared after the first bus,
+    a later bus added results -/
 def f4Sig (w : World) (e : EId) : Bool :=
-  (events w).any fun d => desc w d e &&
-    (w.ev d).results.any fun r => !r.terminal && some r.bus != (w.ev d).path.head?
+  (events w).any fun d => desc w d e && (w.ev d).signal && (w.ev d).path.length > 1 && !treeDone w d
 
 /-- F1: the polling loop ran out while a run loop, blocked on the global lock, holds the awaited event or a descendant -/
 def f1Sig (w : World) (i : IId) (c : EId) : Bool :=
@@ -126,14 +127,14 @@ def evicted (w : World) (m : Mon) (d : EId) : Bool :=
 
 /-- names of the recorded hang mechanisms present in the tree of `e` -/
 def hangSigs (w : World) (m : Mon) (e : EId) : List String :=
-  (if m.tripped.any (fun d => desc w d e) then ["F2"] else []) ++
-  (if m.aborted.any (fun d => desc w d e) then ["F5"] else []) ++
+  (if m.tripped.any (fun d => desc w d.2 e) then ["F2"] else []) ++
+  (if m.aborted.any (fun d => desc w d.2 e) then ["F5"] else []) ++
   (if (events w).any (fun d => desc w d e && evicted w m d) then ["F11"] else []) ++
   (if f4Sig w e then ["F4"] else [])
 
 def busHangSigs (w : World) (m : Mon) (b : BId) : List String :=
-  (if m.tripped.any (fun d => m.begun.contains (b, d)) then ["F2"] else []) ++
-  (if m.aborted.any (fun d => m.begun.contains (b, d)) then ["F5"] else [])
+  (if m.tripped.any (fun d => d.1 == b) then ["F2"] else []) ++
+  (if m.aborted.any (fun d => d.1 == b) then ["F5"] else [])
 
 /-- chain of executors of an instance up to the first instance that runs on a parallel bus -/
 def parRoot (w : World) : Nat → IId → Option (BId × EId × IId)
@@ -199,8 +200,8 @@ def Mon.step (m : Mon) (w : World) (l : Label) (w' : World) : Mon × List Vio :=
          (if after != want then v "C09" "childCount" [] s!"event {e} under instance {i}: {after} ≠ {want}" else []) ++ late i
        | _ => [])
     (m, vs)
-  | .peRecTrip _ _ e => ({ m with tripped := m.tripped ++ [e] }, [])
-  | .peAbort _ _ e => ({ m with aborted := m.aborted ++ [e] }, [])
+  | .peRecTrip _ b e => ({ m with tripped := m.tripped ++ [(b, e)] }, [])
+  | .peAbort _ b e => ({ m with aborted := m.aborted ++ [(b, e)] }, [])
   | .peBegin p b e =>
     ({ m with begun := m.begun ++ [(b, e)] },
      if !C02.beginOrder w p b e then v "C02" "beginOrder" ["C02-inv"] s!"bus {b}: {e} begins inline while the run loop holds an earlier event" else [])
@@ -217,7 +218,11 @@ def Mon.step (m : Mon) (w : World) (l : Label) (w' : World) : Mon × List Vio :=
         some ({ prop := "C06", clause := "overlap",
                 sigs := (if parDrainSig w' i1 j then ["par-drain"] else []),
                 detail := s!"instance {j} starts while instance {i1} is executing" } : Vio)
-    let vs2 := if !C02.serialNoOverlap w' j then v "C02" "serialOverlap" [] s!"instance {j}" else []
+    let vs2 := if !C02.serialNoOverlap w' j then
+        v "C02" "serialOverlap"
+          (if (insts w').any (fun i1 => i1 != j && (w'.inst i1).bus == (w'.inst j).bus && (w'.inst i1).st == .running &&
+                 parDrainSig w' i1 j) then ["par-drain"] else [])
+          s!"instance {j} starts on a serial bus while a handler of another event of that bus is executing" else []
     (m, vs5 ++ vs6 ++ vs2)
   | .hEnd i out => (m, if out != .cancelled then late i else [])
   | .hFinish i r =>
@@ -255,9 +260,10 @@ def Mon.step (m : Mon) (w : World) (l : Label) (w' : World) : Mon × List Vio :=
     if (w'.ev e).results == rs then none else
       some ({ prop := "C08", clause := "changed",
               sigs := (if (w'.ev e).path.length > 1 &&
-                         (w'.ev e).results.any (fun r => !rs.contains r && some r.bus != (w'.ev e).path.head?) then ["F4"] else []),
+                         (w'.ev e).results.any (fun r => !rs.any (fun x => x.bus == r.bus && x.hid == r.hid)) then ["F4"] else []),
               detail := s!"event {e} changed after it was complete" } : Vio)
-  let snaps := snaps0.map fun (e, rs) => (e, if (w'.ev e).results == rs then rs else (w'.ev e).results)
+  -- a changed event is watched again from its next completion on
+  let snaps := snaps0.filter fun (e, rs) => (w'.ev e).results == rs
   let fresh := (events w').filterMap fun e =>
     if (w'.ev e).signal && (w'.ev e).status == .completed && !snaps.any (·.1 == e) && some e != redispatched
     then some (e, (w'.ev e).results) else none
